@@ -368,6 +368,33 @@ pub fn replay_in_fresh_process(path: &str) -> bool {
     }
 }
 
+/// Replays in fresh processes until one reproduces (at most `max` attempts). More than one attempt
+/// is only ever needed when the code under test consumes randomness the simulator does not own
+/// (an ambient generator such as `thread_rng` inside a decoder): every seam the simulator does
+/// own is a function of the replay file.
+pub fn replay_attempts(path: &str, max: usize) -> Option<usize> {
+    for k in 1..=max {
+        if replay_in_fresh_process(path) {
+            return Some(k);
+        }
+    }
+    None
+}
+
+const REPLAY_ATTEMPTS: usize = 25;
+
+fn note_nondeterministic(path: &str, attempts: usize) {
+    if let Ok(txt) = std::fs::read_to_string(path) {
+        if let Ok(mut doc) = serde_json::from_str::<Value>(&txt) {
+            doc["replay_note"] = json!(format!(
+                "reproduced at fresh-process attempt {} of at most {}: the code under test draws randomness that does not come from the generator it is handed; `check replay` retries in fresh processes",
+                attempts, REPLAY_ATTEMPTS
+            ));
+            let _ = std::fs::write(path, serde_json::to_string_pretty(&doc).unwrap_or(txt));
+        }
+    }
+}
+
 pub fn check(prop: &dyn Prop, tier: Tier, seed: u64) -> i32 {
     let budget_s = std::env::var("VERIF_BUDGET_S")
         .ok()
@@ -457,6 +484,19 @@ pub fn check(prop: &dyn Prop, tier: Tier, seed: u64) -> i32 {
         let (min_case, used) = minimise(prop, case, v, 120);
         let mut path = write_replay(prop, seed, tier, &min_case, v, *idx);
         let mut reproduced = replay_in_fresh_process(&path);
+        if !reproduced {
+            // ambient randomness in the code under test? the same file, more fresh processes
+            if let Some(k) = replay_attempts(&path, REPLAY_ATTEMPTS - 1) {
+                println!(
+                    "  note: class={} site={} reproduced only at fresh-process attempt {}: the code under test draws randomness the simulator does not own",
+                    v.class,
+                    v.site,
+                    k + 1
+                );
+                note_nondeterministic(&path, k + 1);
+                reproduced = true;
+            }
+        }
         if !reproduced && &min_case != case {
             // Minimisation runs in this process. If the code under test keeps process-global state
             // (a static table, a once-cell), a shortened schedule may only fail here because an
@@ -467,7 +507,14 @@ pub fn check(prop: &dyn Prop, tier: Tier, seed: u64) -> i32 {
                 v.class, v.site
             );
             path = write_replay(prop, seed, tier, case, v, *idx);
-            reproduced = replay_in_fresh_process(&path);
+            reproduced = match replay_attempts(&path, REPLAY_ATTEMPTS) {
+                Some(1) => true,
+                Some(k) => {
+                    note_nondeterministic(&path, k);
+                    true
+                }
+                None => false,
+            };
         }
         if !reproduced {
             eprintln!(
@@ -622,6 +669,15 @@ pub fn replay(props: &[Box<dyn Prop>], path: &str, quiet: bool) -> i32 {
                 }
                 None => {
                     if !quiet {
+                        // a file that records a nondeterministic reproduction is retried in fresh
+                        // processes (each attempt is one complete, independent replay)
+                        if doc.get("replay_note").is_some() {
+                            if let Some(k) = replay_attempts(path, REPLAY_ATTEMPTS) {
+                                println!("reproduced at fresh-process attempt {} (the code under test draws randomness the simulator does not own)", k);
+                                println!("VIOLATION property={} replay={}", pid, path);
+                                return 1;
+                            }
+                        }
                         println!(
                             "not reproduced: expected class={} site={}; this run produced {:?}",
                             exp_class, exp_site, o.violations
